@@ -8,7 +8,24 @@ pub broadcast axiom fn axiom_sb_inj(s: &str, t: &str) ensures (#[trigger] sb(s) 
 pub open spec fn is_ascii_bytes(b: Seq<u8>) -> bool { forall|i: int| 0 <= i < b.len() ==> b[i] < 128 }
 pub open spec fn is_suffix(d: Seq<u8>, h: Seq<u8>) -> bool { h.len() >= d.len() && h.subrange(h.len() - d.len(), h.len() as int) =~= d }
 pub uninterp spec fn spec_eq_ci(a: Seq<u8>, b: Seq<u8>) -> bool;
+pub open spec fn boundary(b: Seq<u8>, i: int) -> bool { i == 0 || i == b.len() || (0 < i < b.len() && (b[i - 1] < 128 || b[i] < 128)) }
+pub open spec fn last_dot(b: Seq<u8>, r: Option<usize>) -> bool {
+    match r { Some(i) => i < b.len() && b[i as int] == 46u8 && forall|j: int| i < j < b.len() ==> b[j] != 46u8,
+              None => forall|j: int| 0 <= j < b.len() ==> b[j] != 46u8 }
+}
+pub open spec fn has_dotdot(b: Seq<u8>) -> bool { exists|i: int| 0 <= i && i + 1 < b.len() && #[trigger] b[i] == 46u8 && b[i + 1] == 46u8 }
+pub uninterp spec fn lex_lt(a: Seq<u8>, b: Seq<u8>) -> bool;
+pub broadcast axiom fn axiom_dotdot_lit() ensures #[trigger] sb("..") == seq![46u8, 46u8];
 pub trait VxStr {
+    spec fn vx_sb(&self) -> Seq<u8>;
+    fn vx_len(&self) -> (r: usize);
+    // slicing: the cut must be a char boundary (stated on bytes: an end, or next to an ASCII byte)
+    fn vx_to<'a>(&'a self, i: usize) -> (r: &'a str) requires i <= self.vx_sb().len(), boundary(self.vx_sb(), i as int);
+    fn vx_from<'a>(&'a self, i: core::ops::RangeFrom<usize>) -> (r: &'a str) requires i.start <= self.vx_sb().len(), boundary(self.vx_sb(), i.start as int);
+    fn vx_byte(&self, i: usize) -> (r: u8) requires i < self.vx_sb().len();
+    fn vx_lt(&self, o: &str) -> (r: bool);
+    fn vx_rfind_char(&self, c: char) -> (r: Option<usize>) requires c == '.';
+    fn vx_contains(&self, p: &str) -> (r: bool) requires sb(p) == seq![46u8, 46u8];
     fn vx_ends_with(&self, p: &str) -> (r: bool);
     fn vx_ends_with_char(&self, c: char) -> (r: bool) requires (c as u32) < 128;
     fn vx_starts_with_char(&self, c: char) -> (r: bool) requires (c as u32) < 128;
@@ -18,6 +35,14 @@ pub trait VxStr {
     fn vx_eq_ignore_ascii_case(&self, p: &str) -> (r: bool);
 }
 impl VxStr for str {
+    open spec fn vx_sb(&self) -> Seq<u8> { sb(self) }
+    #[verifier::external_body] fn vx_len(&self) -> (r: usize) ensures r == sb(self).len() { self.len() }
+    #[verifier::external_body] fn vx_to<'a>(&'a self, i: usize) -> (r: &'a str) ensures sb(r) == sb(self).subrange(0, i as int) { &self[..i] }
+    #[verifier::external_body] fn vx_from<'a>(&'a self, i: core::ops::RangeFrom<usize>) -> (r: &'a str) ensures sb(r) == sb(self).subrange(i.start as int, sb(self).len() as int) { &self[i] }
+    #[verifier::external_body] fn vx_byte(&self, i: usize) -> (r: u8) ensures r == sb(self)[i as int] { self.as_bytes()[i] }
+    #[verifier::external_body] fn vx_lt(&self, o: &str) -> (r: bool) ensures r == lex_lt(sb(self), sb(o)) { self < o }
+    #[verifier::external_body] fn vx_rfind_char(&self, c: char) -> (r: Option<usize>) ensures last_dot(sb(self), r) { self.rfind(c) }
+    #[verifier::external_body] fn vx_contains(&self, p: &str) -> (r: bool) ensures r == has_dotdot(sb(self)) { self.contains(p) }
     #[verifier::external_body] fn vx_ends_with(&self, p: &str) -> (r: bool) ensures r == is_suffix(sb(p), sb(self)) { self.ends_with(p) }
     #[verifier::external_body] fn vx_ends_with_char(&self, c: char) -> (r: bool) ensures r == (sb(self).len() > 0 && sb(self)[sb(self).len() - 1] == c as u8) { self.ends_with(c) }
     #[verifier::external_body] fn vx_starts_with_char(&self, c: char) -> (r: bool) ensures r == (sb(self).len() > 0 && sb(self)[0] == c as u8) { self.starts_with(c) }
